@@ -14,7 +14,8 @@ THEOREMS = ["Genql.C02." + t for t in [
     "tuple_values", "evalArgs_length"]] + ["Genql.Obligations.C01.binary_cases", "Genql.Obligations.C12.select_item_lines"]
 TRUSTED = ["IEEE-754 arithmetic (Lean Float in the driver, opaque to the kernel)", "sqlparser (query text -> AST)"]
 RULE = ("random tables with nested objects, NULLs and missing keys x select lists of 1-6 items (columns, nested paths, "
-        "aliases, duplicates, *, expression trees over all 11 binary and 3 unary operators, CASE with/without ELSE); plus "
+        "aliases, duplicates, *, expression trees over all 11 binary and 3 unary operators, CASE with/without ELSE whose conditions compare "
+        "computed operands incl. nested CASE); plus "
         "columns, WHERE operands and FROM tables written as path-selector texts (indexes, open ranges, each, pipes, quoted "
         "keys, mix=>) over rows whose arrays differ in length; "
         "non-trivial = >=1 row and an expression of depth >=2 whose value is not NULL on some row; distinct by (doc, SQL)")
@@ -78,6 +79,14 @@ def gen_num_expr(rnd, depth, want_int=False):
         whens = []
         for _ in range(rnd.randint(1, 2)):
             c = ["cmp", rnd.choice(["lt", "ge", "eq", "ne"]), col(rnd.choice(["i0", "i1"])), num(rnd.choice([0, 1, 2, 3]))]
+            if depth >= 2 and rnd.random() < 0.35:
+                # operands that are themselves computed — arithmetic, or a CASE with its own comparison (a comparison evaluated
+                # while another one is being evaluated)
+                a, _ = gen_num_expr(rnd, depth - 1, True)
+                b, _ = gen_num_expr(rnd, depth - 2, True)
+                c = ["cmp", rnd.choice(["lt", "ge", "eq", "ne", "gt", "le"]), a, b]
+                if rnd.random() < 0.5:
+                    c = [rnd.choice(["and", "or"]), c, ["cmp", rnd.choice(["lt", "ge"]), col("i1"), num(rnd.choice([1, 2]))]]
             v, _ = gen_num_expr(rnd, depth - 1, want_int)
             whens.append([c, v])
         has_else = rnd.random() < 0.6
